@@ -224,6 +224,22 @@ Theorem C15_sle_given_spec : forall V o st s si T P x st' s' r,
 Proof. exact sle_given_spec_lemma. Qed.
 Print Assumptions C15_sle_given_spec.
 
+(* for every history of calls, flow changes and cache resets on one stream: a remembered set of chemicals always comes with
+   the list index built for it (never the all-chemicals slice of a given-solubility call) and only for mixtures *)
+Theorem C15_sle_state_wf_history : forall V ops st s, sst_wf V st -> sst_wf V (fst (srun V (st, s) ops)).
+Proof. exact srun_wf_lemma. Qed.
+Print Assumptions C15_sle_state_wf_history.
+
+(* hence a computed-solubility call returns the same flows and the same outcome (result or exception class) whatever was
+   called before on this solver -- other solutes, given solubilities, failed calls -- as on a new solver object
+   (holds for the source with pending_fixes/C15_4 applied) *)
+Theorem C15_sle_history_independent : forall V o st s a st' s' r,
+  sst_wf V st -> sa_sol a = None ->
+  sle_call V o st s a = (st', s', r) ->
+  exists st'', sle_call V o (sst_init (e_act st)) s a = (st'', s', r).
+Proof. exact sle_history_independent_lemma. Qed.
+Print Assumptions C15_sle_history_independent.
+
 (* a pure solute (one chemical in equilibrium) on a fresh solver: liquid above Tm, solid at or below *)
 Theorem C15_sle_pure : forall V o act s si T P Tm st' s' r,
   let a := mksargs (Some si) (Some T) false P None in
